@@ -115,6 +115,7 @@ def tail_ops(tail):
 
 def run(case):
     op, handler, tail, driver = case['op'], case['handler'], case['tail'], case['driver']
+    outer = bool(case.get('outer')) and case['driver'] == 'grouped' and case['handler'] != 'none'
     items = [(k, v, bool(f), n) for n, (k, v, f) in enumerate(case['items'])]
     if driver != 'grouped':
         items = [(0, v, f, n) for (_, v, f, n) in items]
@@ -142,9 +143,11 @@ def run(case):
         def d_err(e):
             dead.error = e
         errors.subscribe(on_next=d_next, on_error=d_err, on_completed=d_done)
-    inner = [failing_op(op), drive.tap(between)] + hops + tail_ops(tail) + [drive.tap(out_tap)]
+    # outer: the handler sits BEHIND group_by, nothing handles the error inside the group pipeline: it is unhandled where the
+    # group stream is demultiplexed and must surface as on_error there, exactly as with no handler at all
+    inner = [failing_op(op), drive.tap(between)] + ([] if outer else hops) + tail_ops(tail) + [drive.tap(out_tap)]
     if driver == 'grouped':
-        pipeline = rs.state.with_memory_store([rs.ops.group_by(lambda i: i[0], inner)])
+        pipeline = rs.state.with_memory_store([rs.ops.group_by(lambda i: i[0], inner)] + (hops if outer else []))
     elif driver == 'store':
         pipeline = rs.state.with_memory_store(inner)
     else:
@@ -162,7 +165,7 @@ def run(case):
     failing = [it for it in items if it[2]]
 
     # between-tap: per key, the sequence of item/error events
-    if handler != 'none' or not failing:
+    if (handler != 'none' and not outer) or not failing:
         got_between = {}
         keymap = {}
         for kind, key, item, _t in between:
@@ -188,7 +191,7 @@ def run(case):
         xs = []       # what the handler lets through for key k, per source item
         for it, o in zip(its, ref_op_outputs(op, its)):
             if o is None:
-                xs.append([mapper(Boom(it[3]))] if handler == 'map' else [])
+                xs.append([mapper(Boom(it[3]))] if handler == 'map' and not outer else [])
             else:
                 xs.append(o)
         return xs
@@ -210,13 +213,13 @@ def run(case):
         _, co = ref_tail(tail, tail_inputs[k])
         exp_main += co
 
-    labels = ['op:' + op, 'handler:' + handler, 'tail:' + tail, 'driver:' + driver, 'failing=%d' % min(len(failing), 3)]
+    labels = ['op:' + op, 'handler:' + handler + ('(outer)' if outer else ''), 'tail:' + tail, 'driver:' + driver, 'failing=%d' % min(len(failing), 3)]
     if failing and len(failing) == len(items):
         labels.append('all-fail')
     mixed = any(any(i[2] for i in per[k]) and any(not i[2] for i in per[k]) for k in keys)
     nt = mixed and (driver != 'grouped' or len(keys) >= 2)
 
-    if handler == 'none' and failing:
+    if (handler == 'none' or outer) and failing:
         if r.raised is not None:
             raise Violation('exception escaped subscribe', result=r.brief(), **ctx)
         if r.error is None:
@@ -233,7 +236,7 @@ def run(case):
     H.require_clean(r, 'main stream', **ctx)
     if not cmp.same_seq(r.items, exp_main, approx=False):
         raise Violation('main output differs from the output computed without the failing items', expected=exp_main, got=r.items, **ctx)
-    if handler == 'router':
+    if handler == 'router' and not outer:
         tags = [getattr(e, 'tag', None) for e in dead.items]
         if any(not isinstance(e, Boom) for e in dead.items) or tags != [it[3] for it in failing]:
             raise Violation('dead-letter observable did not receive exactly the exceptions in source order',
@@ -254,7 +257,8 @@ def case_gen(draw):
     tail = draw(st.sampled_from(TAILS if driver != 'multiplex' else ['nothing']))
     n = draw(st.integers(draw(st.sampled_from([0, 1, 3, 6])), 12))
     items = [[draw(st.integers(0, 2)), draw(st.integers(-5, 5)), draw(st.integers(0, 2).map(lambda x: int(x == 0)))] for _ in range(n)]
-    return {'op': op, 'handler': draw(st.sampled_from(HANDLERS)), 'tail': tail, 'driver': driver, 'items': items}
+    return {'op': op, 'handler': draw(st.sampled_from(HANDLERS)), 'tail': tail, 'driver': driver, 'items': items,
+            'outer': driver == 'grouped' and draw(st.integers(0, 3)) == 0}
 
 
 def enum(tier):
@@ -270,9 +274,61 @@ def enum(tier):
                         yield {'op': op, 'handler': handler, 'tail': TAILS[c % 4], 'driver': 'store' if nk == 1 else 'grouped', 'items': items}
 
 
+@st.composite
+def malformed_case(draw):
+    n = draw(st.integers(1, 8))
+    items = [draw(st.one_of(st.tuples(st.integers(-5, 5), st.integers(-5, 5)).map(list), st.none(), st.integers(0, 3), st.just([1])))
+             for _ in range(n)]
+    return {'items': items, 'handler': draw(st.sampled_from(HANDLERS)), 'driver': draw(st.sampled_from(['store', 'multiplex']))}
+
+
+def run_malformed(case):
+    """starmap over items that cannot be star-applied (None, a scalar, a tuple of the wrong arity): calling the user
+    function on them raises, which is an item-level error like any other: one mux error in place, the rest continues."""
+    items = [tuple(i) if isinstance(i, list) else i for i in case['items']]
+    handler = case['handler']
+    good = lambda i: isinstance(i, tuple) and len(i) == 2
+    between = []
+    hops = {'ignore': [rs.error.ignore()], 'map': [rs.error.map(lambda e: 'mapped')], 'none': []}.get(handler)
+    dead = []
+    done = []
+    if handler == 'router':
+        errors, route = rs.error.create_error_router()
+        errors.subscribe(on_next=dead.append, on_completed=lambda: done.append(1))
+        hops = [route()]
+    inner = [rs.ops.starmap(lambda a, b: a * 10 + b), drive.tap(between)] + hops
+    pipeline = rs.state.with_memory_store(inner) if case['driver'] == 'store' else rs.ops.multiplex(inner)
+    r = drive.collect(rx.from_(items).pipe(pipeline))
+    ctx = dict(case)
+    bad = [i for i in items if not good(i)]
+    clean = []
+    for i in items:
+        if good(i):
+            clean.append(i[0] * 10 + i[1])
+        elif handler == 'map':
+            clean.append('mapped')
+    if handler == 'none' and bad:
+        if r.raised is not None or r.error is None or r.completed:
+            raise Violation('an item that cannot be star-applied did not surface as on_error', result=r.brief(), **ctx)
+        if not cmp.same_seq(r.items, clean[:len(r.items)], approx=False):
+            raise Violation('items before the error are not a prefix of the clean output', expected=clean, got=r.items, **ctx)
+    else:
+        H.require_clean(r, 'starmap with items that cannot be star-applied', **ctx)
+        if not cmp.same_seq(r.items, clean, approx=False):
+            raise Violation('main output differs from the output without the failing items', expected=clean, got=r.items, **ctx)
+        kinds = [k for k, _key, _i, _t in between if k in ('n', 'e')]
+        if kinds != ['n' if good(i) else 'e' for i in items]:
+            raise Violation('not exactly one mux error per failing item, in place', got=kinds, **ctx)
+        if handler == 'router' and (len(dead) != len(bad) or done != [1]):
+            raise Violation('dead letters: %d for %d failing items, completed %r' % (len(dead), len(bad), done), **ctx)
+    return {'nontrivial': bool(bad) and len(bad) < len(items), 'labels': ['handler:' + handler, case['driver']]}
+
+
 def subs(tier):
     return [
         Sub('faults', run, gen=case_gen, examples={'quick': 2500, 'thorough': 200000},
             doc='generated keyed inputs / failing subsets / operator / handler / tail / driver vs reference computed without the failing items'),
+        Sub('malformed', run_malformed, gen=malformed_case, examples={'quick': 600, 'thorough': 40000},
+            doc='starmap over items that cannot be star-applied (None, scalars, wrong arity) with each handler'),
         Sub('enum', run, enum=enum, doc='all failing subsets up to n items x operators x handlers x {1,2} keys'),
     ]
